@@ -132,7 +132,7 @@ func TestC17_Shipped(t *testing.T) {
 	if err := haveBins(); err != nil {
 		t.Fatalf("INFRA: %v", err)
 	}
-	ev := NewEv(t, "C17", "shipped", "every source rule whose access token is rPUx or rUx without '->' (found by an independent line tokenizer) x --full builds of the real tree with the real binary (all 45 = 5 distributions x 3 ABI/version x 3 modes in thorough, a seeded covering sample of 6 in quick); oracle: the same rule (same file, same case-folded path token, same ordinal) in the built file has the access token 'rpx' (case-folded), and in the normal build of the same configuration it differs from the source only in letter case. Non-trivial: every (configuration, file, rule); distinct by that triple")
+	ev := NewEv(t, "C17", "shipped", "every source rule whose access token is rPUx or rUx without '->' (found by an independent line tokenizer) x --full builds of the real tree with the real binary (all 45 = 5 distributions x 3 ABI/version x 3 modes in thorough, a seeded covering sample of 6 in quick; every other build gives its options in the one-letter spelling); oracle: the same rule (same file, same case-folded path token, same ordinal) in the built file has the access token 'rpx' (case-folded), and in the normal build of the same configuration it differs from the source only in letter case. Non-trivial: every (configuration, file, rule); distinct by that triple")
 	rules, err := sourceFspRules()
 	if err != nil || len(rules) < 50 {
 		t.Fatalf("INFRA: %d source rules found: %v", len(rules), err)
@@ -142,6 +142,7 @@ func TestC17_Shipped(t *testing.T) {
 	var mu sync.Mutex
 	parallel(len(cfgs), 8, func(i int) {
 		c := cfgs[i]
+		c.Short = i%2 == 1 // every other build spells its options with one letter (-f -c -e -a -v)
 		bf, err := BuildShipped(c, false)
 		defer bf.Clean()
 		if err != nil {
